@@ -95,7 +95,7 @@ impl<W: AsyncWrite + Unpin + Send + Sync> AsyncWritePacket for W {
 
         // writes a TAG_Compound (0x0a) TextComponent
         let json: Value = serde_json::from_str(str)?;
-        let bytes = fastnbt::to_bytes_with_opts(&json, SerOpts::network_nbt())?;
+        let bytes = fastnbt::to_bytes_with_opts(&nbt_shaped(json), SerOpts::network_nbt())?;
         self.write_all(&bytes).await?;
 
         Ok(())
@@ -106,5 +106,52 @@ impl<W: AsyncWrite + Unpin + Send + Sync> AsyncWritePacket for W {
         self.write_all(arr).await?;
 
         Ok(())
+    }
+}
+
+/// Brings a JSON text component into a shape that NBT can hold: NBT has no null (such entries are
+/// left out) and a list has a single element type. Elements of different kinds (a plain string
+/// next to a styled part is the common case) are sent the way the game does it, each element that
+/// is not a compound wrapped into a compound under the empty name.
+fn nbt_shaped(value: Value) -> Value {
+    fn kind(value: &Value) -> u8 {
+        match value {
+            Value::Null => 0,
+            Value::Bool(_) => 1,
+            Value::Number(number) if number.is_f64() => 6,
+            Value::Number(_) => 4,
+            Value::String(_) => 8,
+            Value::Array(_) => 9,
+            Value::Object(_) => 10,
+        }
+    }
+    fn is_wrapper(value: &Value) -> bool {
+        matches!(value, Value::Object(map) if map.len() == 1 && map.contains_key(""))
+    }
+
+    match value {
+        Value::Object(map) => Value::Object(
+            map.into_iter()
+                .filter(|(_, value)| !value.is_null())
+                .map(|(key, value)| (key, nbt_shaped(value)))
+                .collect(),
+        ),
+        Value::Array(items) => {
+            let items: Vec<Value> = items.into_iter().map(nbt_shaped).collect();
+            let mixed = items.windows(2).any(|pair| kind(&pair[0]) != kind(&pair[1]));
+            if !mixed {
+                return Value::Array(items);
+            }
+            Value::Array(
+                items
+                    .into_iter()
+                    .map(|item| match item {
+                        Value::Object(_) if !is_wrapper(&item) => item,
+                        other => Value::Object([(String::new(), other)].into_iter().collect()),
+                    })
+                    .collect(),
+            )
+        }
+        other => other,
     }
 }
